@@ -46,7 +46,7 @@ def _cstr8(s):
 
 
 # the sample_type in force (module-level so that every record writer and build() agree); set_layout() switches it for one file
-_layout = {"sample_type": SAMPLE_TYPE, "task_event": None, "id_all": True, "event": "cpu-clock", "user_stack": False}
+_layout = {"sample_type": SAMPLE_TYPE, "task_event": None, "id_all": True, "event": "cpu-clock", "user_stack": False, "second": "dummy"}
 
 
 def set_layout(cpu=True, period=True, ip=True, callchain=True):
@@ -65,6 +65,14 @@ def set_layout(cpu=True, period=True, ip=True, callchain=True):
     _layout["id_all"] = True
     _layout["event"] = "cpu-clock"
     _layout["user_stack"] = False
+    _layout["second"] = "dummy"
+
+
+def set_second_event(kind):
+    """the second event of a two-event file (set_task_event): "dummy" (software, config 9: perf's tracking event, it has no samples of its own),
+    "instructions" (hardware, config 1), "cycles" (hardware, config 0: the same kind of event as a hardware main event, e.g. the other PMU of a hybrid
+    CPU) or "page-faults" (software, config 2) - `perf record -e <main> -e <second>`; samples of the second event: sample(.., second=True)"""
+    _layout["second"] = kind
 
 
 def set_user_stack(flag):
@@ -142,7 +150,7 @@ def mmap2(pid, tid, addr, length, pgoff, path, time, build_id=None, prot=5, flag
     return _rec(PERF_RECORD_MMAP2, misc, body)
 
 
-def sample(pid, tid, time, ip, callchain, cpu=0, period=1, kernel=False, unwind=None, cpumode=None):
+def sample(pid, tid, time, ip, callchain, cpu=0, period=1, kernel=False, unwind=None, cpumode=None, second=False):
     """callchain: list of u64 (already including context markers if wanted); if None, [PERF_CONTEXT_USER, ip].
     unwind (with set_user_stack): the return addresses of the callers, leaf-most first - written as a copied user stack holding a well-formed x86-64
     frame-pointer chain (saved rbp, return address; the root-most record's saved rbp is 0) under registers bp / sp / ip, for the converter to unwind.
@@ -150,7 +158,7 @@ def sample(pid, tid, time, ip, callchain, cpu=0, period=1, kernel=False, unwind=
     if callchain is None:
         callchain = [PERF_CONTEXT_USER, ip]
     st = _layout["sample_type"]
-    body = (struct.pack("<Q", MAIN_ID) if st & S_IDENTIFIER else b"") + (struct.pack("<Q", ip) if st & S_IP else b"") + struct.pack("<IIQ", pid, tid, time)
+    body = (struct.pack("<Q", TRACKING_ID if second else MAIN_ID) if st & S_IDENTIFIER else b"") + (struct.pack("<Q", ip) if st & S_IP else b"") + struct.pack("<IIQ", pid, tid, time)
     if st & S_CPU:
         body += struct.pack("<II", cpu, 0)
     if st & S_PERIOD:
@@ -205,7 +213,8 @@ def build(records, arch="x86_64", first_time=None, last_time=None, period=100000
         ids = b""
     else:
         # two attributes: cpu-clock (ids [MAIN_ID]) and a software dummy event (config 9, ids [TRACKING_ID]); the id arrays precede the attributes
-        dummy = struct.pack("<II", 1, 112) + struct.pack("<Q", 9) + attr[16:]
+        sty, scfg, sname = {"dummy": (1, 9, "dummy:HG"), "instructions": (0, 1, "instructions"), "cycles": (0, 0, "cpu_atom/cycles/"), "page-faults": (1, 2, "page-faults")}[_layout["second"]]
+        dummy = struct.pack("<II", sty, 112) + struct.pack("<Q", scfg) + attr[16:]
         ids = struct.pack("<QQ", MAIN_ID, TRACKING_ID)
         attr_entry = attr + struct.pack("<QQ", header_size, 8) + dummy + struct.pack("<QQ", header_size + 8, 8)
         attr_size = 128
@@ -222,7 +231,7 @@ def build(records, arch="x86_64", first_time=None, last_time=None, period=100000
     if _layout["task_event"] is not None:
         # HEADER_EVENT_DESC: the reader takes the event ids (and names) from here
         desc = struct.pack("<II", 2, 112)
-        for a_, name, i in ((attr, _layout["event"], MAIN_ID), (dummy, "dummy:HG", TRACKING_ID)):
+        for a_, name, i in ((attr, _layout["event"], MAIN_ID), (dummy, sname, TRACKING_ID)):
             desc += a_ + struct.pack("<I", 1) + hstr(name) + struct.pack("<Q", i)
         feat[12] = desc
     elif ":" in _layout["event"]:
